@@ -63,6 +63,11 @@ GDY2 == 6
 Nodes == 1..(GNX * GNX)
 NodeIX(g) == (g - 1) % GNX
 NodeIY(g) == (g - 1) \div GNX
+\* targets lying exactly ON the data: point targets 1..4 = the sample places, 5..8 = the corners of the field;
+\* grid of CGNX x CGNY nodes, origin (0,0), mesh 1 (every sample place is a node)
+CGNX == 8
+CGNY == 7
+ASSUME \A a \in Ids : SX[a] \in 0..(CGNX - 1) /\ SY[a] \in 0..(CGNY - 1)
 NMaxi == 2           \* moving neighbourhood: at most 2 samples, radius larger than the field
 LagW == 2            \* variogram: omnidirectional, lag width 2, NLag lags, tolerance 1/2 lag
 NLag == 4
@@ -189,6 +194,26 @@ DeclNbMoving(S, t, needs) == SortAsc(Range(FirstK(SortByDist(S, Range(Keep(S, ne
 \* Db::getRanksActive(nbgh, item, useSel, useVerr) as used by evalCovMatrix*, evalDriftMatrix
 RanksData(S, useVerr) == DataVM(S, LAMBDA i, w : RanksActive(S[i]) /\ S[i].z[w] /\ (useVerr /\ HasV => S[i].v))
 
+\* the same readers asked for SOME variables only (ivar0 >= 0 of evalCovMatrix*, evalDriftMatrix; list ivars of
+\* Db::getMultipleRanksActive / getMultipleValuesActive): each single variable, and a reordered list.  The data
+\* of request r are those of variable r[1], then r[2], ...; Db::getMultipleRanksActive reads the definedness of
+\* variable jvars[k] (not of the k-th variable of the Db)
+Requests == IF NVar = 1 THEN << <<1>> >> ELSE << <<1>>, <<2>>, <<2, 1>> >>
+DataReq(S, r, P(_, _)) == Flatten([k \in DOMAIN r |-> LET q == Idx(S, LAMBDA i : P(i, r[k])) IN [j \in DOMAIN q |-> <<q[j], r[k]>>]])
+\* physical removal for ONE requested variable w: only the samples where that datum is usable; the other variables
+\* are irrelevant to the request (the harness fills them)
+KeepVar(S, needs, w) == Idx(S, LAMBDA i : UsableDatum(S[i], w, needs))
+ReduceVar(S, needs, w) == LET kp == KeepVar(S, needs, w) IN
+                          [k \in 1..Len(kp) |-> [S[kp[k]] EXCEPT !.sel = "none", !.z = [u \in Vars |-> TRUE]]]
+
+\* conditional simulation onto targets lying on the data (_updateData2ToTarget, point and grid branches): the
+\* target at the place of identity a receives the value of the first ACTIVE datum found at that place (if defined)
+OnPlace(S, a, P(_)) == {i \in DOMAIN S : P(i) /\ S[i].c /\ ~S[i].pert /\ S[i].id = a}
+CopyMap(S, P(_), Q(_, _)) == [a \in Ids |-> [w \in Vars |->
+                               IF OnPlace(S, a, P) # {} /\ Q(CHOOSE i \in OnPlace(S, a, P) : TRUE, w)
+                               THEN CHOOSE i \in OnPlace(S, a, P) : TRUE ELSE 0]]
+CopyCode(S) == CopyMap(S, LAMBDA i : IsActive(S[i]), LAMBDA i, w : S[i].z[w])
+
 \* statistics (Classical.cpp): isActive, then FFFF on the value (flagIso: on all the variables)
 StatData(S, iso) == DataVM(S, LAMBDA i, w : IsActive(S[i]) /\ S[i].z[w] /\ (iso => \A u \in Vars : S[i].z[u]))
 DeclStat(S, iso) == DataVM(S, LAMBDA i, w : SelOn(S[i]) /\ S[i].z[w] /\ (iso => \A u \in Vars : S[i].z[u]))
@@ -253,26 +278,32 @@ KNeeds == IF HasF THEN {"c", "f"} ELSE {"c"}      \* what kriging reads of a sam
 
 OpNames == <<"krig_u", "krig_m", "krig_mb", "neigh_u", "neigh_m", "neigh_mb", "xvalid_u", "xvalid_m",
              "vario", "vario_cov", "stat", "stat_iso", "cov", "cov_sym", "drift", "simtub", "simtub_pt", "simtub_exp", "migrate",
-             "migrate_ball", "migrate_grid", "migrate_fill", "reduce">>
+             "migrate_ball", "migrate_grid", "migrate_fill", "reduce",
+             "cov_req", "cov_sym_req", "drift_req", "ranks_req", "krig_on", "simtub_on", "simtub_on_grid">>
 Ops == Range(OpNames)
 
 \* fields read besides the values = which Reduce the operation is compared with
 NeedsOf(op) ==
-  CASE op \in {"krig_u", "krig_m", "krig_mb", "xvalid_u", "xvalid_m", "simtub", "simtub_pt", "simtub_exp"} -> KNeeds
+  CASE op \in {"krig_u", "krig_m", "krig_mb", "xvalid_u", "xvalid_m", "simtub", "simtub_pt", "simtub_exp",
+                "krig_on", "simtub_on", "simtub_on_grid"} -> KNeeds
     [] op = "neigh_u" -> {}                  \* ANeigh promises: not masked, not all undefined (the rest is _flagDefine's)
     [] op \in {"neigh_m", "neigh_mb"} -> {"c"}
     [] op \in {"vario", "vario_cov"} -> {"c"}
     [] op \in {"stat", "stat_iso"} -> {}
-    [] op = "cov" -> {"c"}
-    [] op = "cov_sym" -> {"c", "v"}
-    [] op = "drift" -> {"c", "f", "v"}
+    [] op \in {"cov", "cov_req"} -> {"c"}
+    [] op \in {"cov_sym", "cov_sym_req"} -> {"c", "v"}
+    [] op \in {"drift", "drift_req"} -> {"c", "f", "v"}
+    [] op = "ranks_req" -> {}
     [] op \in {"migrate", "migrate_ball", "migrate_grid", "migrate_fill"} -> {"c"}
     [] op = "reduce" -> {"anyrow"}
 
 \* shape: "data" = sequence of <<position, variable>>, "idx" = sequence of positions, "t..." = one per target,
 \* "tsrc" = one position (or 0) per target, "count" = numbers only
 KindOf(op) ==
-  CASE op \in {"krig_u", "xvalid_u", "simtub", "simtub_pt", "simtub_exp", "stat", "stat_iso", "cov", "cov_sym", "drift"} -> "data"
+  CASE op \in {"krig_u", "xvalid_u", "simtub", "simtub_pt", "simtub_exp", "stat", "stat_iso", "cov", "cov_sym", "drift",
+                "krig_on"} -> "data"
+    [] op \in {"cov_req", "cov_sym_req", "drift_req", "ranks_req"} -> "rdata"      \* one data list per request
+    [] op \in {"simtub_on", "simtub_on_grid"} -> "datacopy"     \* <<data, per place and variable the datum copied>>
     [] op \in {"krig_m", "krig_mb", "xvalid_m"} -> "tdata"
     [] op = "neigh_u" -> "idx"
     [] op = "reduce" -> "rows5"
@@ -282,8 +313,18 @@ KindOf(op) ==
     [] op = "vario_cov" -> "countidx"
     [] op = "vario" -> "count"
 
+\* requests reachable per operation: the matrices take one variable (ivar0), the Db readers any list
+ReqsOf(op) == IF op = "ranks_req" THEN Requests ELSE SubSeq(Requests, 1, NVar)
+UseVerr(op) == op \in {"cov_sym_req", "drift_req"}
+DeclReq(op, S) == [k \in DOMAIN ReqsOf(op) |-> DataReq(S, ReqsOf(op)[k], LAMBDA i, w : UsableDatum(S[i], w, NeedsOf(op)))]
+CodeReq(op, S) == [k \in DOMAIN ReqsOf(op) |-> DataReq(S, ReqsOf(op)[k],
+                     LAMBDA i, w : RanksActive(S[i]) /\ S[i].z[w] /\ (UseVerr(op) /\ HasV => S[i].v))]
+
 DeclOf(op, S) ==
-  CASE op \in {"krig_u", "xvalid_u", "simtub", "simtub_pt", "simtub_exp"} -> DeclData(S, KNeeds)
+  CASE op \in {"krig_u", "xvalid_u", "simtub", "simtub_pt", "simtub_exp", "krig_on"} -> DeclData(S, KNeeds)
+    [] op \in {"cov_req", "cov_sym_req", "drift_req", "ranks_req"} -> DeclReq(op, S)
+    [] op \in {"simtub_on", "simtub_on_grid"} ->
+         <<DeclData(S, KNeeds), CopyMap(S, LAMBDA i : TRUE, LAMBDA i, w : UsableDatum(S[i], w, KNeeds))>>
     [] op \in {"krig_m", "krig_mb", "xvalid_m"} ->
          [t \in Targets |-> LET nb == DeclNbMoving(S, t, KNeeds) IN
                               DataVM(S, LAMBDA i, w : i \in Range(nb) /\ UsableDatum(S[i], w, KNeeds))]
@@ -302,7 +343,9 @@ DeclOf(op, S) ==
     [] op = "reduce" -> DeclRows(S)
 
 CodeOf(op, S) ==
-  CASE op = "krig_u" -> FlagDefine(S, NbUnique(S))
+  CASE op \in {"krig_u", "krig_on"} -> FlagDefine(S, NbUnique(S))
+    [] op \in {"cov_req", "cov_sym_req", "drift_req", "ranks_req"} -> CodeReq(op, S)
+    [] op \in {"simtub_on", "simtub_on_grid"} -> <<FlagDefine(S, NbUnique(S)), CopyCode(S)>>
     [] op = "xvalid_u" -> FlagDefine(S, NbUnique(S))
     [] op \in {"simtub", "simtub_pt", "simtub_exp"} -> FlagDefine(S, NbUnique(S))
     [] op \in {"krig_m", "xvalid_m"} -> [t \in Targets |-> FlagDefine(S, NbMoving(S, t))]
@@ -333,6 +376,9 @@ ToId(op, S, x) ==
     [] KindOf(op) = "tidx"  -> [t \in Targets |-> IdxToId(S, x[t])]
     [] KindOf(op) = "tsrc"  -> [t \in DOMAIN x |-> IF x[t] <= 0 THEN x[t] ELSE S[x[t]].id]
     [] KindOf(op) = "count" -> x
+    [] KindOf(op) = "rdata" -> [k \in DOMAIN x |-> PairsToId(S, x[k])]
+    [] KindOf(op) = "datacopy" -> <<PairsToId(S, x[1]),
+                                    [a \in Ids |-> [w \in Vars |-> IF x[2][a][w] = 0 THEN 0 ELSE S[x[2][a][w]].id]]>>
     [] KindOf(op) = "countidx" -> <<x[1], PairsToId(S, x[2])>>
     [] KindOf(op) = "rows5" -> <<IdxToId(S, x[1]), x[2], IdxToId(S, x[3]), IdxToId(S, x[4]), IdxToId(S, x[5])>>
 
@@ -341,6 +387,9 @@ OnMasked(op, S)   == ToId(op, S, CodeOf(op, S))                       \* what th
 OnReduced(op, S)  == LET R == Reduce(S, NeedsOf(op)) IN ToId(op, R, CodeOf(op, R))   \* ... on the reduced Db
 OnPerturbed(op, S) == LET P == Perturb(S, NeedsOf(op)) IN ToId(op, P, CodeOf(op, P))   \* ... on the perturbed Db
 Agrees(op, S)     == OnMasked(op, S) = Spec_(op, S) /\ OnReduced(op, S) = Spec_(op, S) /\ OnPerturbed(op, S) = Spec_(op, S)
+\* a request for one variable w on the Db reduced for that variable (ReduceVar) uses the data declared on S
+ReduceVarAgrees(op, S) == \A w \in Vars : LET R == ReduceVar(S, NeedsOf(op), w) IN
+                                            PairsToId(R, CodeReq(op, R)[w]) = Spec_(op, S)[w]
 \* Reduce itself is sound: on a reduced Db the declared data are those declared on the masked one
 ReduceSound(op, S) == LET R == Reduce(S, NeedsOf(op)) IN ToId(op, R, DeclOf(op, R)) = Spec_(op, S)
 
@@ -389,9 +438,9 @@ ModelDeviation(op, S) ==
   \/ op = "migrate_ball" /\ (ft.zall_na \/ ft.hetero \/ ft.coord_na)
        \* D2 CalcMigrate::_expandPointToPointBall: the nearest sample wins even when its value is undefined, and a
        \*    sample without coordinates is a candidate (the selection part has been repaired in the library)
-  \/ op \in {"cov", "cov_sym", "drift"} /\ ft.coord_na
+  \/ op \in {"cov", "cov_sym", "drift", "cov_req", "cov_sym_req", "drift_req"} /\ ft.coord_na
        \* D4 getRanksActive tests selection, value and Verr, not the coordinates: rows computed from 1.234e30
-  \/ op = "drift" /\ ft.f_na
+  \/ op \in {"drift", "drift_req"} /\ ft.f_na
        \* D5 ... nor the external drift: the drift matrix holds 1.234e30
   \/ op \in {"krig_m", "krig_mb", "xvalid_m"} /\ ft.f_na
        \* D7 samples that _flagDefine drops later (undefined external drift) still fill the NMaxi slots
